@@ -8,11 +8,13 @@
 //!     byte for byte: it runs the MODEL's full decoder on `enc`, checks the shard layout at every level, the length and the
 //!     declared size (and counts how often the bytes are identical).
 //! `c03 chaindec … bytes=<hex>`  -> `val <elems>` | `err` | `panic`
+//! `c03 chainpd … bytes=<hex> rs=<region|region>`  -> `val <elems>|<elems>` | `err` (the chain's partial decoder over a stored value)
 //!     the implementation's decoder on genuine, re-laid-out, truncated, extended and corrupted values; the model's
 //!     `ChainS.decode` must agree on accept/reject and on the value.
-use crate::arr::{dtypes, from_array_bytes, parse_elems, show_elems, to_array_bytes, DType};
+use crate::arr::{dtypes, from_array_bytes, parse_elems, parse_subset, show_elems, to_array_bytes, DType};
 use crate::util::*;
 use std::collections::BTreeMap;
+use std::sync::Arc;
 use std::num::NonZeroU64;
 use zarrs::array::codec::{ArrayToBytesCodecTraits, CodecChain, CodecOptions};
 use zarrs::array::{BytesRepresentation, ChunkRepresentation, DataType, FillValue};
@@ -77,6 +79,22 @@ pub fn exec(line: &str) -> String {
         let (chain, rep) = match chain_of(&m) { Ok(x) => x, Err(_) => return "err-chain".into() };
         let es: usize = m["es"].parse().unwrap();
         let opts = CodecOptions::default();
+        if verb == "chainpd" {
+            // the value stored under a key, read through the chain's PARTIAL decoder (nested levels ask their input handle for
+            // intervals and suffixes of intervals): `val <elems>|<elems>` (one entry per region), `err`
+            use zarrs::storage::{store::MemoryStore, ReadableStorageTraits, StoreKey, WritableStorageTraits};
+            let store = Arc::new(MemoryStore::new());
+            let key = StoreKey::new("v").unwrap();
+            store.set(&key, unhex(&m["bytes"]).into()).unwrap();
+            let rs: Arc<dyn ReadableStorageTraits> = store;
+            let input = Arc::new(zarrs::array::codec::StoragePartialDecoder::new(rs, key));
+            let regions: Vec<zarrs::array_subset::ArraySubset> = m["rs"].split('|').map(parse_subset).collect();
+            let pd = match Arc::new(chain).partial_decoder(input, &rep, &opts) { Ok(pd) => pd, Err(_) => return "err".into() };
+            return match pd.partial_decode(&regions, &opts) {
+                Ok(parts) => format!("val {}", parts.into_iter().map(|d| show_elems(&from_array_bytes(Some(es), d))).collect::<Vec<_>>().join("|")),
+                Err(e) => { let _ = e.to_string(); "err".into() }
+            };
+        }
         if verb == "chaindec" {
             return match chain.decode(unhex(&m["bytes"]).into(), &rep, &opts) {
                 Ok(d) => format!("val {}", show_elems(&from_array_bytes(Some(es), d))),
@@ -216,11 +234,12 @@ pub fn generate(tier: &str, seed: u64) -> Vec<String> {
         // decoder cases on derived values
         let enc = match guarded_res(|| chain.encode(to_array_bytes(Some(es), &data), &rep, &CodecOptions::default()).map(|e| e.into_owned()).map_err(|e| e.to_string())) { Ok(e) => e, Err(_) => continue };
         let mut variants: Vec<Vec<u8>> = vec![enc.clone()];
+        let mut legal = 1usize;
         // re-layouts of the outermost level (possible when no bytes-to-bytes codec wraps it)
         if b2bs[0] == "-" {
             let seen0: Vec<u64> = match &orders[0] { Some(o) => o.iter().map(|&a| ssh[a as usize]).collect(), None => ssh.clone() };
             let n: usize = seen0.iter().zip(&ishs[0]).map(|(s, i)| s / i).product::<u64>() as usize;
-            for _ in 0..2 { if let Some(v) = relayout(&mut rng, &enc, n, locs[0] == "end", iends[0] == "big", icrcs[0] == "1") { variants.push(v); } }
+            for _ in 0..2 { if let Some(v) = relayout(&mut rng, &enc, n, locs[0] == "end", iends[0] == "big", icrcs[0] == "1") { variants.push(v); legal += 1; } }
             // index entries rewritten: out of bounds, overflow, half sentinel, shifted
             let isz = 16 * n + if icrcs[0] == "1" { 4 } else { 0 };
             if enc.len() >= isz {
@@ -256,7 +275,21 @@ pub fn generate(tier: &str, seed: u64) -> Vec<String> {
             let mut e = enc.clone(); let extra = 1 + rng.below(5) as usize; e.extend(rng.bytes(extra)); variants.push(e);
         }
         let glen = rng.below(60) as usize; variants.push(rng.bytes(glen));
+        // (own stream) the legal values - the encoder's own and its re-layouts - read through the PARTIAL decoder of the chain
+        if rank >= 1 {
+            let mut rp = Rng::new(seed ^ 0xC03C_9D ^ (k as u64) << 10);
+            for v in variants.iter().take(legal) {
+                let regions: Vec<String> = (0..rp.range(1, 3)).map(|_| { let mut st = vec![]; let mut n = vec![]; for &e in &ssh { let a = rp.below(e); st.push(a); n.push(rp.range(1, e - a)); } format!("{}+{}", nl(&st), nl(&n)) }).collect();
+                out.push(format!("c03 chainpd {} bytes={} rs={}", base, hex(v), regions.join("|")));
+            }
+        }
         for v in variants { out.push(format!("c03 chaindec {} bytes={}", base, hex(&v))); }
     }
     out
+}
+
+/// only the `chainpd` lines (C12 runs them as well: a conformant value - foreign layouts included - must be read to the
+/// intended values through the partial-decoding route too, at every nesting depth)
+pub fn generate_pd(tier: &str, seed: u64) -> Vec<String> {
+    generate(tier, seed).into_iter().filter(|l| l.starts_with("c03 chainpd ")).collect()
 }
